@@ -51,8 +51,10 @@ def main():
             json.dump(res, open(os.path.join(d, "result.json"), "w"), indent=1)
     finally:
         sh("git -C /repo worktree remove --force %s" % WT)
-        # regenerate the Gen modules from the clean tree
-        sh("cd %s && /venv/bin/python harness/gen_all.py" % VERIF)
+        # restore the generated modules of the touched properties (committed = generated from the clean tree)
+        for sid in ids:
+            prop = sid.split("-")[0]
+            sh("cd %s && git checkout -- lean/HitenModel/Gen/%s.lean" % (VERIF, prop))
 
 
 if __name__ == "__main__":
